@@ -221,4 +221,34 @@ MUTANTS = [
  ("c14-cli-ids-file-keeps-comments", "biom/cli/table_subsetter.py", r"""            if not line.startswith('#'):
                 ids.append(line.strip().split('\t')[0])""", r"""            if True:
                 ids.append(line.strip().split('\t')[0])""", ["C14"]),
+ ("c15-no-rows-crosscheck", "biom/cli/table_validator.py", """            if ('rows' in table_json and
+                    len(table_json['rows']) != table_json['shape'][0]):""", """            if ('rows' in table_json and
+                    len(table_json['rows']) < table_json['shape'][0]):""", ["C15"]),
+ ("c15-x-bound-loosened", "biom/cli/table_validator.py", """            if x < 0 or x > n_rows:""", """            if x < 0 or x > n_rows + 1:""", ["C15"]),
+ ("c15-negative-coord-allowed", "biom/cli/table_validator.py", """            if y < 0 or y > n_cols:""", """            if y > n_cols:""", ["C15"]),
+ ("c15-metadata-accepts-lists", "biom/cli/table_validator.py", """        if isinstance(record['metadata'], dict):
+            return ''""", """        if isinstance(record['metadata'], (dict, list)):
+            return ''""", ["C15"]),
+ ("c15-required-datasets-shortened", "biom/cli/table_validator.py", """                             'sample/matrix/indices',
+                             'sample/matrix/indptr']""", """                             'sample/matrix/indices']""", ["C15"]),
+ ("c15-required-key-date-dropped", "biom/cli/table_validator.py", """            ('id', self._valid_nullable_id),
+            ('date', self._valid_datetime)
+        ]""", """            ('id', self._valid_nullable_id),
+        ]""", ["C15"]),
+ ("c15-h5-missing-attr-not-fatal", "biom/cli/table_validator.py", """            if required_attr not in table.attrs:
+                valid_table = False""", """            if required_attr not in table.attrs:
+                valid_table = valid_table and required_attr != 'nnz'""", ["C15"]),
+ ("c15-h5-samp-count-unchecked", "biom/cli/table_validator.py", """            if n_samp != len(samp_ids):
+                valid_table = False""", """            if n_samp < len(samp_ids):
+                valid_table = False""", ["C15"]),
+ ("c15-value-type-unchecked", "biom/cli/table_validator.py", """            if not isinstance(val, dtype):
+                return "Bad value at idx %d: %s" % (idx, repr(coord))""", """            if val is None:
+                return "Bad value at idx %d: %s" % (idx, repr(coord))""", ["C15"]),
+ ("c15-dup-id-check-rows-only", "biom/cli/table_validator.py", """        ids = [col['id'] for col in table_json['columns']]
+        if len(ids) != len(set(ids)):""", """        ids = [col['id'] for col in table_json['columns']]
+        if len(ids) != len(ids):""", ["C15"]),
+ ("c15-type-none-valid-writer", T, """        if self.type is None:
+            type_ = '"type": null,'""", """        if self.type is None or self.type == 'Gene table':
+            type_ = '"type": null,'""", ["C15", "C02"]),
+ ("c15-fromjson-ignores-shape", T, """            return coo_matrix(shape if shape is not None else (0, 0))""", """            return coo_matrix((0, 0))""", ["C15", "C02"]),
 ]
